@@ -59,7 +59,8 @@ ScalarsTiny  == {IntV(0, <<1>>), Scalar("string", <<>>)}
 
 \* keys: the canonical order is length first, then bytewise
 KeysFull == { <<>>, <<97>>, <<98>>, <<97, 97>>, <<97, 98>>, <<98, 97>>, <<195, 169>>, <<122>>,
-              <<0>>, <<255>>, Fill(24, 97), <<97, 0>> }
+              <<0>>, <<255>>, Fill(24, 97), <<97, 0>>,
+              Fill(255, 97), Fill(256, 97), Fill(257, 98) }     \* lengths around a one-byte / two-byte length head
 KeysSmall == { <<97>>, <<98>>, <<97, 97>>, <<>> }
 
 \* all sequences over S of length exactly n / at most n
